@@ -127,7 +127,12 @@ def prove(pid: str, tier: str = "quick"):
             if tier == "thorough" and not bad_modules:
                 # independent re-check of the compiled proofs (the property file and every proof module it imports from OSq.Proofs / OSq.Sem)
                 mods = list(reg["modules"]) + list(reg.get("proof_modules", []))
-                rc, out = sh(["lake", "env", "leanchecker", *mods], cwd=LEAN, timeout=7200)
+                # in batches of three modules: memory grows by about 2 GB per module checked in one invocation
+                rc, out = 0, ""
+                for i in range(0, len(mods), 3):
+                    rc_i, out_i = sh(["lake", "env", "leanchecker", *mods[i:i + 3]], cwd=LEAN, timeout=7200)
+                    out += out_i[-300:]
+                    if rc_i != 0: rc = rc_i; break
                 res["leanchecker"] = {"modules": mods, "exit": rc, "tail": out[-500:]}
                 if rc != 0:
                     res["failed"].append("leanchecker rejected the compiled modules: " + out[-300:])
